@@ -137,6 +137,9 @@ def run_variant(job):
                 mismatch.append({"what": "field", "detail": "zero field_eom changed the field"})
         elif case["alg"] == "row":
             tempo = oqupy.Tempo(system, bath, params, rho0, start, unique=unique)
+            if var.get("legs") and n_steps >= 2:
+                # the propagation is continued in a second call on the same object
+                tempo.compute(start + (n_steps // 2) * dt + 0.25 * dt, progress_type="silent")
             dyn = tempo.compute(end_time, progress_type="silent")
         else:
             rt = var.get("pt_roundtrip")
@@ -148,6 +151,10 @@ def run_variant(job):
                 ptens.close()
                 ptens = oqupy.import_process_tensor(fname, rt)
                 info["cleanup"] = fname
+            if var.get("peek_raw"):
+                # a read-only look at the stored tensors (as for listing bond dimensions) before the tensor is used
+                for r_ in range(len(ptens)):
+                    ptens.get_mpo_tensor(r_, transformed=False)
             nsub = var.get("num_steps")
             dyn = oqupy.compute_dynamics(system, initial_state=rho0, process_tensor=ptens,
                                          start_time=start, num_steps=nsub,
